@@ -74,6 +74,8 @@ type bufferedUpdate struct {
 	updates   *ovsdb.TableUpdates
 	updates2  *ovsdb.TableUpdates2
 	lastTxnID string
+	// monitorID is the monitor an update3 (and its lastTxnID) belongs to
+	monitorID string
 }
 
 type epInfo struct {
@@ -653,7 +655,7 @@ func (o *ovsdbClient) update(params []json.RawMessage, reply *[]interface{}) err
 
 	db.cacheMutex.Lock()
 	if db.deferUpdates {
-		db.deferredUpdates = append(db.deferredUpdates, &bufferedUpdate{&updates, nil, ""})
+		db.deferredUpdates = append(db.deferredUpdates, &bufferedUpdate{updates: &updates})
 		db.cacheMutex.Unlock()
 		return nil
 	}
@@ -694,7 +696,7 @@ func (o *ovsdbClient) update2(params []json.RawMessage, reply *[]interface{}) er
 
 	db.cacheMutex.Lock()
 	if db.deferUpdates {
-		db.deferredUpdates = append(db.deferredUpdates, &bufferedUpdate{nil, &updates, ""})
+		db.deferredUpdates = append(db.deferredUpdates, &bufferedUpdate{updates2: &updates})
 		db.cacheMutex.Unlock()
 		return nil
 	}
@@ -741,7 +743,7 @@ func (o *ovsdbClient) update3(params []json.RawMessage, reply *[]interface{}) er
 
 	db.cacheMutex.Lock()
 	if db.deferUpdates {
-		db.deferredUpdates = append(db.deferredUpdates, &bufferedUpdate{nil, &updates, lastTransactionID})
+		db.deferredUpdates = append(db.deferredUpdates, &bufferedUpdate{updates2: &updates, lastTxnID: lastTransactionID, monitorID: cookie.ID})
 		db.cacheMutex.Unlock()
 		return nil
 	}
@@ -1025,7 +1027,7 @@ func (o *ovsdbClient) monitor(ctx context.Context, cookie MonitorCookie, reconne
 				return
 			}
 			// setting up the monitor failed: the cache is as before, carry on
-			if err := o.applyDeferredUpdates(db, ""); err != nil {
+			if err := o.applyDeferredUpdates(db); err != nil {
 				o.logger.Error(err, "applying deferred updates after a failed monitor request")
 			}
 		}()
@@ -1103,13 +1105,12 @@ func (o *ovsdbClient) monitor(ctx context.Context, cookie MonitorCookie, reconne
 	}
 
 	// populate any deferred updates
-	return o.applyDeferredUpdates(db, cookie.ID)
+	return o.applyDeferredUpdates(db)
 }
 
 // applyDeferredUpdates stops deferring updates and applies those deferred so
-// far. Must be called with a lock on cacheMutex (and on monitorsMutex if
-// cookieID names the monitor whose last transaction id is to be updated).
-func (o *ovsdbClient) applyDeferredUpdates(db *database, cookieID string) error {
+// far. Must be called with a lock on monitorsMutex and on cacheMutex.
+func (o *ovsdbClient) applyDeferredUpdates(db *database) error {
 	db.deferUpdates = false
 	deferred := db.deferredUpdates
 	// clear deferred updates for next time
@@ -1126,8 +1127,12 @@ func (o *ovsdbClient) applyDeferredUpdates(db *database, cookieID string) error 
 				return err
 			}
 		}
-		if len(update.lastTxnID) > 0 && cookieID != "" {
-			db.monitors[cookieID].LastTransactionID = update.lastTxnID
+		if len(update.lastTxnID) > 0 {
+			// the id belongs to the monitor the notification was sent for,
+			// which need not be the one that is being set up
+			if mon := db.monitors[update.monitorID]; mon != nil {
+				mon.LastTransactionID = update.lastTxnID
+			}
 		}
 	}
 	return nil
